@@ -44,7 +44,9 @@ RemovalPendingOn(n) == \E x \in Ids : pend[x].has /\ ~pend[x].rec.live /\ active
 TouchedClaimant(n, x) == \E y \in Ids \ {x} : pend[y].has /\ ((eps[y].live /\ eps[y].name = n) \/ (shadowed[y].live /\ shadowed[y].name = n))
 IUpdate(i, r) ==
     /\ ~draining
-    /\ AllowRename \/ ~eps[i].live \/ eps[i].name = r.name
+    \* "rename" as the manager sees it: any record it still holds for i (processed or not) has another name;
+    \* a removal and a re-creation with another name inside one batch are coalesced into exactly that
+    /\ AllowRename \/ \A h \in {eps[i], active[i], shadowed[i], pend[i].rec} : ~h.live \/ h.name = r.name
     /\ AllowBatchRace \/ ~RemovalPendingOn(r.name)
     /\ Update(i, r)
     /\ pend' = [pend EXCEPT ![i] = [has |-> TRUE, rec |-> r]]
